@@ -5,7 +5,7 @@ from pathlib import Path
 
 root = Path(__file__).resolve().parents[1] / "seeded"
 rows = []
-for d in sorted(p for p in root.iterdir() if p.is_dir()):
+for d in sorted(p for p in root.iterdir() if p.is_dir() and (p / "meta.json").exists()):
     meta = json.loads((d / "meta.json").read_text())
     res = json.loads((d / "result.json").read_text()) if (d / "result.json").exists() else {}
     own = [c for c in res.get("checks", []) if c.get("property", meta["property"]) == meta["property"]]
